@@ -28,7 +28,7 @@ FILES = {
     "controllers/extendeddaemonsetreplicaset/conditions/update.go": ["C06", "C09", "C14"],
     "controllers/extendeddaemonset/controller.go": ["C05", "C07", "C15", "C13", "C14"],
     "controllers/extendeddaemonset/utils.go": ["C05", "C08", "C07"],
-    "controllers/extendeddaemonset/conditions/update.go": ["C14", "C07"],
+    "controllers/extendeddaemonset/conditions/update.go": ["C14", "C07", "C20"],
     "controllers/extendeddaemonsetsetting/controller.go": ["C18"],
     "controllers/podtemplate/controller.go": ["C13"],
     "pkg/controller/utils/pod/pod.go": ["C06", "C03", "C01"],
